@@ -584,6 +584,18 @@ def generate(rng, tier, index):
         loggers.insert(rng.randint(0, len(loggers)), lg)
     # the same format text in two handler sections that differ in
     # arbitrary-fields (validation must not be remembered per text)
+    plainh = [h for lg in loggers for h in lg["handlers"]
+              if h["path"] not in ("STDOUT", "STDERR")
+              and not h.get("max_size") and not h.get("when")]
+    if len(plainh) >= 2 and rng.random() < 0.25:
+        # two plain log-file sections naming the SAME file (two loggers
+        # writing one log): both are file handlers still alive
+        a_, b_ = rng.sample(range(len(plainh)), 2)
+        plainh[b_]["path"] = plainh[a_]["path"]
+        if plainh[a_].get("symlink"):
+            plainh[b_]["symlink"] = True
+        if plainh[a_].get("encoding") != plainh[b_].get("encoding"):
+            plainh[b_]["encoding"] = plainh[a_].get("encoding")
     allh = [h for lg in loggers for h in lg["handlers"]]
     if len(allh) >= 2 and rng.random() < 0.2:
         a, b = rng.sample(range(len(allh)), 2)
@@ -614,11 +626,11 @@ def generate(rng, tier, index):
         kind = rng.choices(
             ["call", "emit", "reopen-all", "reopen", "close-all", "drop",
              "gc", "advance", "close-all-fault", "ext-rotate",
-             "reopen-all-fault"],
-            [30, 20, 12, 8, 8, 10, 5, 7, 4, 5, 3])[0]
+             "reopen-all-fault", "retire"],
+            [30, 20, 12, 8, 8, 10, 5, 7, 4, 5, 3, 4])[0]
         if k_op == 0 and rng.random() < 0.8:
             kind = "call"
-        if kind in ("call", "reopen", "drop", "ext-rotate"):
+        if kind in ("call", "reopen", "drop", "ext-rotate", "retire"):
             history.append({"op": kind, "i": rng.randrange(nl)})
         elif kind == "emit":
             called_i = [o["i"] for o in history if o["op"] == "call"]
@@ -638,7 +650,23 @@ def generate(rng, tier, index):
     plainfile = [li for li, lg in enumerate(loggers) if any(
         h["path"] not in ("STDOUT", "STDERR") and not h.get("max_size")
         and not h.get("when") for h in lg["handlers"])]
-    if plainfile and rng.random() < 0.08:
+    anyfile = [li for li, lg in enumerate(loggers) if any(
+        h["path"] not in ("STDOUT", "STDERR") for h in lg["handlers"])]
+    if anyfile and rng.random() < 0.07:
+        # scripted skeleton: the application retires a logger's handlers
+        # itself (removeHandler + close) but still holds them; they are
+        # closed, so reopening / closing log files must leave them alone
+        li = rng.choice(anyfile)
+        history = [{"op": "call", "i": li}]
+        if rng.random() < 0.4:
+            history.append({"op": "emit", "i": li, "level": 50,
+                            "msg": "plain"})
+        history.append({"op": "retire", "i": li})
+        history.append({"op": rng.choice(["reopen-all", "reopen-all",
+                                          "close-all"])})
+        if rng.random() < 0.4:
+            history.append({"op": "reopen-all"})
+    elif plainfile and rng.random() < 0.08:
         # scripted skeleton: reopening fails for one handler (its path is
         # not a file for a moment), the obstacle goes away, and the
         # registry is used again: the handler is still alive, still attached
@@ -930,6 +958,23 @@ def _execute(plan, out, scratch, w, clock, recs):
                 if not os.path.lexists(lp):
                     os.symlink(lp + ".t0", lp)
 
+    retired = []        # handlers the "application" closed and kept
+
+    def check_retired(step):
+        """A handler that was closed stays closed through reopenFiles()."""
+        for r in recs:
+            if not getattr(r, "retired", False) or r.kind not in (
+                    "plain", "size", "timed"):
+                continue
+            hh = r.ref()
+            if hh is not None and hh.stream is not None:
+                violation("reopen", "revived-closed-handler",
+                          "handler %d of logger %d was closed by the "
+                          "application (removeHandler + close) and has an "
+                          "open stream again after the log files were "
+                          "reopened" % (r.hi, r.li), step)
+            del hh
+
     def check_paths(step, li):
         """After a reopen: every live plain file handler with an open stream
         writes to the file its CONFIGURED path names now."""
@@ -1054,7 +1099,8 @@ def _execute(plan, out, scratch, w, clock, recs):
         """After a collection nothing but the application's own references
         may keep a handler alive: handlers of dropped loggers are dead."""
         for r in recs:
-            if r.li in dropped and r.ref() is not None:
+            if r.li in dropped and r.ref() is not None \
+                    and not getattr(r, "retired", False):
                 violation("drop", "handler-survives",
                           "handler %d of logger %d (%s) is still alive after "
                           "every application reference was dropped and the "
@@ -1319,6 +1365,7 @@ def _execute(plan, out, scratch, w, clock, recs):
                           % ops.brief(ops.failure(e)), step)
             _check_reopened(recs, before, violation, step, None, probe)
             check_paths(step, None)
+            check_retired(step)
             out["fired"]["reopen-all"] = out["fired"].get("reopen-all", 0) + 1
         elif kind == "close-all":
             live = [r for r in recs if r.kind in ("plain", "size", "timed")
@@ -1446,6 +1493,28 @@ def _execute(plan, out, scratch, w, clock, recs):
                         r.closed = True
                     del hh
             del cand
+        elif kind == "retire":
+            # the application takes the handlers off the logger and closes
+            # them itself, but keeps them (a closed handler is not one of
+            # "the file handlers still alive")
+            i = op["i"]
+            lg = plan["loggers"][i]
+            if created[i]:
+                logger = logging.getLogger(lg.get("name")) \
+                    if lg["kind"] == "logger" else logging.getLogger()
+                for hh in logger.handlers[:]:
+                    logger.removeHandler(hh)
+                    hh.close()
+                    retired.append(hh)
+                    for r in recs:
+                        if r.ref() is hh:
+                            r.closed = True
+                            r.retired = True
+                hh = logger = None
+                attached[keys[i]] = []
+                out["fired"]["retire-handlers"] = out["fired"].get(
+                    "retire-handlers", 0) + 1
+            factories[i] = None
         elif kind == "drop":
             i = op["i"]
             lg = plan["loggers"][i]
